@@ -456,6 +456,13 @@ func (p *Parser) hook(r rune) {
 			continue
 		}
 		val, err := strconv.Atoi(param)
+		if ne, ok := err.(*strconv.NumError); ok && ne.Err == strconv.ErrRange {
+			// A number too large for an int stays at the largest
+			// int (which is what Atoi returns for it), as in
+			// csiDispatch: the string keeps its other parameters
+			// and no error is reported for it
+			err = nil
+		}
 		if err != nil {
 			p.emit(fmt.Errorf("hook: %w", err))
 			return
